@@ -34,7 +34,7 @@ GEN = 'cirbo.synthesis.generation.generation'
 
 
 def shards(tier, seed):
-    per = 300 if tier == 'quick' else 2500
+    per = 300 if tier == 'quick' else 20000
     budget = 50 if tier == 'quick' else 560
     out = [{'kind': 'random', 'count': per, 'budget_s': budget, 'maxw': 6 if tier == 'quick' else 10} for _ in range(13)]
     out.append({'kind': 'generate', 'widths': [1, 2, 3], 'budget_s': budget})
